@@ -392,10 +392,17 @@ func judgeHTTP(r *vrun.Run, c httpCase, log []reqLog, waits []waitRec, status in
 		kind = "constant"
 	}
 	now := time.Now()
-	for _, w := range waits {
-		n := rm - w.Remaining
-		if n < 0 || n >= len(log) {
-			r.Inconclusive("http: logged wait cannot be attributed to a request")
+	for n, w := range waits {
+		// the client logs one wait after each request it is going to repeat: the k-th logged wait was
+		// computed for attempt number k from the answer to request k
+		if n >= len(log) {
+			r.Inconclusive("http: more waits logged than requests received")
+			break
+		}
+		if rm-w.Remaining != n {
+			// the client's own retry accounting disagrees with the order of the log (an attempt that
+			// never reached the server, or a different retry budget): do not guess
+			r.Inconclusive("http: logged wait cannot be attributed to a request unambiguously")
 			continue
 		}
 		rq := log[n]
